@@ -466,9 +466,22 @@ func SQLiteAgrees(o *oracle.Oracle, dir string, built *Built) (string, error) {
 			}
 			continue
 		}
-		got, err := o.Query("btc", "SELECT rowid, "+strings.Join(cols, ", ")+" FROM "+t.Name+" ORDER BY rowid")
+		got, err := o.Query("btc", "SELECT rowid, "+strings.Join(cols[:min(len(cols), 1000)], ", ")+" FROM "+t.Name+" ORDER BY rowid")
 		if err != nil {
 			return "select " + t.Name + ": " + err.Error(), nil
+		}
+		// (a result set has at most 2000 columns: a table of that many is read in two parts)
+		if len(cols) > 1000 {
+			more, err := o.Query("btc", "SELECT "+strings.Join(cols[1000:], ", ")+" FROM "+t.Name+" ORDER BY rowid")
+			if err != nil {
+				return "select " + t.Name + ": " + err.Error(), nil
+			}
+			if len(more) != len(got) {
+				return fmt.Sprintf("table %s: SQLite sees %d and %d rows", t.Name, len(got), len(more)), nil
+			}
+			for i := range got {
+				got[i] = append(got[i], more[i]...)
+			}
 		}
 		if len(got) != len(bt.Rows) {
 			return fmt.Sprintf("table %s: SQLite sees %d rows, builder %d", t.Name, len(got), len(bt.Rows)), nil
